@@ -72,6 +72,16 @@ CLAIMED = {
                      'cross-validation run); argparse runs for real on concrete argument vectors; shlex.split modelled for text without quotes. Mostly finite: the SMT content is '
                      'the written values and the presence flags.',
                 ref='DESIGN.md section 5 C16'),
+    'C17': dict(level='model_checking',
+                text='(a) symbolic balance obligations: for all 40 argument type strings of TeX.readArgumentAndSource x delimiter spec x every token stream of 0-2 (thorough 3) '
+                     'symbolic characters over a 10-character alphabet (end of input at every position) and 10 register-led streams, the parameter-enable level and flag after '
+                     'the call equal those before; (b) after each of 30 documents built from risky constructs (boxes, nested lists, ifthen tests, register-to-register '
+                     'assignments, math/list left open at end of input, classes, \\newcolumntype) the snapshot of interpreter-wide state equals the initial one; (c) for all '
+                     'pairs A;B over the set, B after A has the same canonical tree as B alone.',
+                note='(b) and (c) enumerate a finite document set concretely (differential execution is not symbolic); the solver-based part is (a). Leaks that are architectural '
+                     'are listed as known findings F9a-d (register values on shared classes, article ProcessOptions class patching, column types) and reported as KNOWN-FINDING; '
+                     'rendered files of A;B vs B are outside the claim.',
+                ref='DESIGN.md section 5 C17'),
     'C18': dict(level='model_checking',
                 text='splitColumns: for <= 5 (thorough 8) entries with UNBOUNDED symbolic sizes and 1..4 columns the result is an order-preserving partition into exactly the requested '
                      'number of columns; entry parser: every \\index argument of 4 (6) symbolic characters over {a, b, !, @, |, "} is split into levels / sort keys / format as makeindex '
